@@ -96,6 +96,7 @@ HARNESS = {
                          libs=["-lrapidcheck", "-lboost_timer", "-lpthread"], pre_includes=["mocktbb"]),
     "h_mpi": dict(src="h_mpi.cpp", cxx="clang++", flags=["-O1", "-g", "-fsanitize=undefined", "-fno-sanitize-recover=undefined"],
                   inc=MPI_INC, libs=["-lrapidcheck", "-ltbb", "-lboost_timer"] + MPI_LIBS),
+    "h_conc": dict(src="h_conc.cpp", cxx="clang++", flags=["-O1", "-g"] + SAN, libs=["-lrapidcheck", "-ltbb", "-lboost_timer"]),
     "h_comp": dict(src="h_comp.cpp", cxx="clang++", flags=["-O1", "-g"] + SAN, libs=["-lrapidcheck", "-ltbb", "-lboost_timer"]),
 }
 
@@ -740,6 +741,17 @@ def run_rc_property(pid, tier, conf=None):
                 if not any(v[2] == path for v in violations):
                     os.remove(path)
 
+    if conf.get("post"):
+        pe, ph, pc, ps, pv, pn = conf["post"](pid, tier, findings)
+        ev += pe
+        hashes |= set(ph)
+        classes.update(pc)
+        samples = samples[:8] + ps
+        notes += pn
+        for v in pv:
+            if not any(x[0] == v[0] for x in violations):
+                violations.append(v)
+
     # 3. known findings
     for f in findings:
         print("KNOWN-FINDING: property=%s %s" % (pid, f["what"]))
@@ -904,6 +916,276 @@ def replay_c19(pid, path):
 
 
 prop("C19", runner=run_c19, custom_replay=replay_c19, engine="headers.py")
+
+
+# ----------------------------------------------------------------------------- C11 / C20 demo clause (Hypothesis -> executables)
+def demo_env():
+    import demos as D
+    bins = D.build_demos(REPO, BUILD, gen_config, tree_hash(["demos"]))
+    wd = os.path.join(BUILD, "demo-run-%d" % os.getpid())
+    return D, D.Env(bins, wd), wd
+
+
+def demo_violation_file(pid, D, v):
+    os.makedirs(NEWDIR, exist_ok=True)
+    text = D.case_text(pid, v.case)
+    path = os.path.join(NEWDIR, "%s-%s.case" % (pid, hashlib.sha1(text.encode()).hexdigest()[:16]))
+    with open(path, "w") as f:
+        f.write("# key %s\n# %s\n%s" % (v.key, v.msg.replace("\n", " ")[:400], text))
+    return path
+
+
+def confirm_demo(pid, D, env, v):
+    """the shrunk case must fail 3 times in a row outside Hypothesis"""
+    for i in range(3):
+        r = D.replay_case(pid, env, v.case)
+        if r is None:
+            return False
+    return True
+
+
+def run_c11(pid, tier):
+    t0 = time.time()
+    sd = seed_value()
+    D, env, wd = demo_env()
+    findings = open_findings(pid)
+    n = 40 if tier == "quick" else 500
+    violations = []
+    notes = []
+    # committed replays first
+    n_replayed = 0
+    for rp in committed_replays(pid):
+        n_replayed += 1
+        case = D.parse_case(open(rp).read())
+        v = D.replay_case(pid, env, case)
+        if v is not None and not any(key_matches(v.key, f["key"]) for f in findings) and confirm_demo(pid, D, env, v):
+            violations.append((v.key, v.msg, rp))
+    stats, v = D.drive(D.make_c11, env, n, sd)
+    if v is not None:
+        if any(key_matches(v.key, f["key"]) for f in findings):
+            notes.append("known finding hit: " + v.key)
+        elif confirm_demo(pid, D, env, v):
+            violations.append((v.key, v.msg, demo_violation_file(pid, D, v)))
+        else:
+            notes.append("non-reproducible failure %s: %s" % (v.key, v.msg[:200]))
+    for f in findings:
+        print("KNOWN-FINDING: property=%s %s" % (pid, f["what"]))
+    coverage = dict(evaluations=stats["evaluations"], distinct_nontrivial=len(stats["nontrivial"]), process_launches=env.launches,
+                    rule="Hypothesis examples: a small simple graph (n<=9, integer weights) written as a DIMACS file with or without a trailing newline, "
+                         "either valid or spoiled by >=1 of {self-loop, repeated vertex pair, weight <= 0}; run through mcb-dimacs (2-3 generated option sets "
+                         "over --signed/--fvstrees/isotrees x --parallel x --cores x --verbose x --printcycles), approx-mcb-dimacs (--k 2..5), "
+                         "collection-stats-dimacs and, for 2/3 of the examples, mcb-dimacs-mpi under mpiexec with 1..4 processes. Oracles: spoiled -> non-zero "
+                         "exit, diagnostic on stderr, no 'Using'/'MCB weight' line, termination within %ds (all ranks); valid -> exit 0 and the printed "
+                         "weight equals an independent brute-force optimum computed in Python (approximate demo: within [opt,(2k-1)opt]), identical for all "
+                         "option sets. Non-trivial = spoiled file under MPI with P>=2, or valid file with cycle-space dimension >= 2; distinct by file+options." % D.WATCHDOG,
+                    samples=stats["samples"] or [dict(note="no sample recorded")], classes=stats["classes"], committed_replays=n_replayed, notes=notes,
+                    violations_found=[dict(key=k, message=m, replay=p) for k, m, p in violations])
+    write_evidence(pid, tier, sd, "exploration", coverage,
+                   ["demos are compiled from /repo/src with the repository's flags plus -DPARMCB_VERIF (asserts enabled)",
+                    "the hang verdict is a %ds watchdog on runs that normally take milliseconds; replayed 3x before it is reported" % D.WATCHDOG],
+                   time.time() - t0, len(violations))
+    shutil.rmtree(wd, ignore_errors=True)
+    for k, m, p in violations:
+        print("VIOLATION property=%s replay=%s" % (pid, p))
+        log("  key=%s  %s" % (k, m))
+    return 1 if violations else 0
+
+
+def replay_demo(pid, path):
+    D, env, wd = demo_env()
+    v = D.replay_case(pid, env, D.parse_case(open(path).read()))
+    shutil.rmtree(wd, ignore_errors=True)
+    if v is not None:
+        print("VIOLATION property=%s replay=%s" % (pid, path))
+        log("  key=%s %s" % (v.key, v.msg))
+        return 1
+    print("replay passed")
+    return 0
+
+
+prop("C11", runner=run_c11, custom_replay=replay_demo, engine="demos.py")
+
+
+def c20_demo_clause(pid, tier, findings):
+    """post hook of C20: the demo clause.  Returns (evaluations, nontrivial hashes, classes, samples, violations, notes)."""
+    D, env, wd = demo_env()
+    n = 25 if tier == "quick" else 300
+    stats, v = D.drive(D.make_c20, env, n, seed_value())
+    violations, notes = [], []
+    if v is not None:
+        if any(key_matches(v.key, f["key"]) for f in findings):
+            notes.append("known finding hit: " + v.key)
+        elif confirm_demo(pid, D, env, v):
+            violations.append((v.key, v.msg, demo_violation_file(pid, D, v)))
+        else:
+            notes.append("non-reproducible demo failure %s" % v.key)
+    shutil.rmtree(wd, ignore_errors=True)
+    classes = {"demo-" + k: c for k, c in stats["classes"].items()}
+    classes["demo-process-launches"] = env.launches
+    return stats["evaluations"], stats["nontrivial"], classes, [dict(demo_clause=s) for s in stats["samples"][:3]], violations, notes
+
+
+def replay_c20(pid, path):
+    txt = open(path).read()
+    if "x opts " in txt:
+        return replay_demo(pid, path)
+    r = replay_all(pid, PROPS[pid]["quick"], path, workdir=BUILD, timeout=600)
+    if r["failed"]:
+        print("VIOLATION property=%s replay=%s" % (pid, path))
+        log("  key=%s %s" % (r["key"], r["msg"]))
+        return 1
+    print("replay passed")
+    return 0
+
+
+prop("C20", harness="h_conc", custom_replay=replay_c20,
+     quick=dict(shards=8, cases=400, post=c20_demo_clause),
+     thorough=dict(shards=16, cases=5000, post=c20_demo_clause),
+     rule="Library clause (rapidcheck, real libtbb): generated call histories set(n1), 0-2 library calls, set(n2), ... with n in 1..64 (beyond the "
+          "hardware threads, repeated, decreasing then increasing); after every set tbb::global_control::active_value(max_allowed_parallelism) must "
+          "equal n, and during and after each following mcb_sva_*_tbb call it must still equal the last set value (observed from inside the call through "
+          "a weight-map wrapper, on whichever thread evaluates it). Demo clause (Hypothesis): mcb-dimacs / approx-mcb-dimacs with generated option "
+          "sets; the PARMCB_VERIF hook line printed right before the algorithm call must show --cores n whenever --parallel=true, whatever the other "
+          "flags. Non-trivial = history that changes the value and makes a library call observe it / demo run with --parallel=true and 1<=cores!=hardware threads.",
+     assumptions=["the harness holds no other global_control object", "hook lines are printed only in PARMCB_VERIF builds"])
+
+
+# ----------------------------------------------------------------------------- C07 (sanitizer monitor over the other generators)
+C07_SUBRUNS = [
+    # harness, property of that harness, env, shards(quick, thorough), cases(quick, thorough)
+    ("h_exact", "C07E", {"VERIF_MAXN": "14"}, (6, 16), (2000, 20000)),
+    ("h_approx", "C07A", {"VERIF_MAXN": "14"}, (4, 12), (2000, 15000)),
+    ("h_comp", "C12", {"VERIF_MAXN": "12"}, (1, 4), (1500, 8000)),
+    ("h_comp", "C13", {"VERIF_MAXN": "24"}, (1, 4), (3000, 20000)),
+    ("h_comp", "C14", {"VERIF_MAXN": "12"}, (1, 4), (1000, 6000)),
+    ("h_comp", "C16", {"VERIF_MAXN": "24"}, (1, 4), (3000, 20000)),
+    ("h_alg", "C17", {}, (1, 2), (3000, 40000)),
+    ("h_alg", "C18", {}, (1, 2), (3000, 40000)),
+    ("h_dimacs", "C10", {}, (1, 4), (4000, 40000)),
+]
+C07_KEEP = re.compile(r"(asan-|ubsan|leak|assert|crash|terminate|foreign-edge|hang|signal)")
+
+
+def run_c07(pid, tier):
+    t0 = time.time()
+    sd = seed_value()
+    ti = 0 if tier == "quick" else 1
+    findings = open_findings(pid)
+    workdir = os.path.join(BUILD, "run-%s-%d" % (pid, os.getpid()))
+    shutil.rmtree(workdir, ignore_errors=True)
+    os.makedirs(workdir)
+    bins = {}
+    hn = sorted(set(x[0] for x in C07_SUBRUNS))
+    with ThreadPoolExecutor(max_workers=len(hn)) as ex:
+        for h, b in zip(hn, ex.map(build_harness, hn)):
+            bins[h] = b
+    results = []
+    with ThreadPoolExecutor(max_workers=NCPU) as ex:
+        futs = []
+        idx = 0
+        for h, sub, env, shards, cases in C07_SUBRUNS:
+            e = dict(env)
+            e["VERIF_LEAKCHECK"] = "25"
+            for i in range(shards[ti]):
+                futs.append((h, sub, e, ex.submit(run_shard, bins[h], sub, sd * 1000 + 700 + idx, cases[ti], e, [], workdir, idx, 3000)))
+                idx += 1
+        for h, sub, e, f in futs:
+            r = f.result()
+            r["binp"], r["sub"], r["env"] = bins[h], sub, e
+            results.append(r)
+    ev, hashes, classes, excluded, samples = merge_stats(results)
+    violations, notes = [], []
+    ignored = 0
+    os.makedirs(NEWDIR, exist_ok=True)
+    for r in results:
+        st = r["stats"] or {}
+        cand = []
+        if st.get("failures"):
+            for f in st["failures"]:
+                cand.append((f["case"], f["key"], f["message"], False))
+        elif r["rc"] != 0 or r["timed_out"]:
+            if st.get("death_case"):
+                cand.append((st["death_case"], "hang" if r["timed_out"] else crash_class(r["out"]), crash_summary(r["out"]), True))
+            elif r["rc"] == 2:
+                raise RuntimeError("harness machinery error:\n" + r["out"][-2000:])
+            else:
+                raise RuntimeError("shard died without a case record:\n" + r["out"][-2000:])
+        for text, key, msg, hard in cand:
+            clause = key.split("/")[-1]
+            if not C07_KEEP.search(clause):
+                ignored += 1   # a semantic failure of another property: reported by that property's own check
+                notes.append("semantic failure seen (belongs to %s): %s" % (r["sub"], key))
+                continue
+            fk = full_key(pid, key, text)
+            if any(key_matches(fk, f["key"]) for f in findings):
+                continue
+            if hard and key != "hang":
+                try:
+                    text = minimise_crash_case(r["binp"], pid, text, r["env"], workdir, key)
+                except Exception as exn:
+                    notes.append("minimisation failed: %s" % exn)
+            path = os.path.join(NEWDIR, "%s-%s.case" % (pid, hashlib.sha1(text.encode()).hexdigest()[:16]))
+            with open(path, "w") as f:
+                f.write("# key %s\n# %s\n" % (fk, msg.replace("\n", " ")[:400]))
+                f.write(text)
+            ok, k2, m2 = confirm_and_report(r["binp"], pid, path, r["env"], timeout=(600 if key == "hang" else 120))
+            if ok and not any(v[0] == fk for v in violations):
+                violations.append((fk, m2 or msg, path))
+            elif not ok:
+                notes.append("non-reproducible %s" % fk)
+                if not any(v[2] == path for v in violations):
+                    os.remove(path)
+    # committed replays
+    n_replayed = 0
+    for rp in committed_replays(pid):
+        n_replayed += 1
+        cp = case_field(open(rp).read(), "property")
+        for h, sub, env, shards, cases in C07_SUBRUNS:
+            if sub == cp:
+                rr = replay_once(bins[h], sub, rp, env, workdir=workdir)
+                if rr["failed"]:
+                    k = rr["key"] if rr["key"] != "crash" else crash_class(rr["out"])
+                    if C07_KEEP.search(k.split("/")[-1]):
+                        violations.append((full_key(pid, k, open(rp).read()), rr["msg"], rp))
+    for f in findings:
+        print("KNOWN-FINDING: property=%s %s" % (pid, f["what"]))
+    coverage = dict(evaluations=ev, distinct_nontrivial=len(hashes),
+                    rule="Sanitizer monitor over generated inputs: the generators of the exact algorithms (all six entry points incl. the TBB ones on real "
+                         "libtbb with 1/2/8 workers), the approximate algorithms (six entry points), shortest-path trees, greedy_fvs, candidate collections, "
+                         "ForestIndex, SpVecGF2, fp/primes/SpVecFP and the DIMACS reader are re-run in binaries built with -fsanitize=address,undefined "
+                         "(-fno-sanitize-recover, detect_stack_use_after_return, library asserts enabled) and __lsan_do_recoverable_leak_check() after every "
+                         "25 cases so that a leak is attributed to a window of cases. Oracle: no ASan/UBSan/LSan report, no failed assert, no crash, and no "
+                         "returned edge descriptor that is not an edge of the caller's graph. Non-trivial = the sub-generators' own non-trivial classes "
+                         "(empty graph / single vertex / forest / disconnected for the algorithms; spanner kept a cycle and dropped an edge; ...), distinct by case text.",
+                    samples=samples, classes=classes, subruns=[dict(harness=h, generator=sub) for h, sub, _, _, _ in C07_SUBRUNS],
+                    semantic_failures_ignored=ignored, committed_replays=n_replayed, notes=notes[:20],
+                    violations_found=[dict(key=k, message=m, replay=p) for k, m, p in violations])
+    write_evidence(pid, tier, sd, "exploration", coverage,
+                   ["uninitialised reads are not visible to ASan/UBSan (no MSan-instrumented libstdc++ in this image)",
+                    "the MPI entry points are exercised by C04 under UBSan only"], time.time() - t0, len(violations))
+    shutil.rmtree(workdir, ignore_errors=True)
+    for k, m, p in violations:
+        print("VIOLATION property=%s replay=%s" % (pid, p))
+        log("  key=%s  %s" % (k, m))
+    return 1 if violations else 0
+
+
+def replay_c07(pid, path):
+    cp = case_field(open(path).read(), "property")
+    for h, sub, env, shards, cases in C07_SUBRUNS:
+        if sub == cp:
+            rr = replay_once(build_harness(h), sub, path, env, workdir=BUILD, timeout=600)
+            if rr["failed"]:
+                print("VIOLATION property=%s replay=%s" % (pid, path))
+                log("  key=%s %s" % (rr["key"], rr["msg"]))
+                return 1
+            print("replay passed")
+            return 0
+    log("no sub-generator for property %r in %s" % (cp, path))
+    return 2
+
+
+prop("C07", runner=run_c07, custom_replay=replay_c07, engine="sanitizer monitor over h_exact/h_approx/h_comp/h_alg/h_dimacs")
 
 
 def replay_cmd(pid, path):
